@@ -44,7 +44,10 @@ def cases(draw, rot=0):
         'o': draw(st.sampled_from(['default', 'out.bin', 'build/fw.bin', 'fw.hex', 'build/OUT.HEX'])), 'l': draw(st.sampled_from([None, 'labels.txt', 'build/fw.labels'])),
         # where the program lives relative to the working directory (output paths are relative to the working directory)
         'src': draw(st.sampled_from(['cwd', 'cwd', 'sub', 'abs'])),
-        'incfile': draw(st.booleans()), 'old': draw(st.booleans()), 'tags': prog.tags, 'verbose': draw(st.integers(0, 3)) == 0,
+        'incfile': draw(st.booleans()),
+        # older output files: none / unrelated contents / the -o file already holds exactly this program (a rebuild), the others stale
+        'old': draw(st.sampled_from([False, True, True, 'same'])),
+        'incname': draw(st.sampled_from(['inc', 'inc', 'inc:v2', 'my inc'])), 'tags': prog.tags, 'verbose': draw(st.integers(0, 3)) == 0,
     }
 
 
@@ -54,7 +57,7 @@ def judge(c, res):
     with env.scratch_dir('bbv-c17-') as root:
         work = os.path.join(root, 'work')
         os.makedirs(os.path.join(work, 'build'))
-        incdir = os.path.join(root, 'inc')
+        incdir = os.path.join(root, c.get('incname', 'inc'))    # (a ':' or a blank in a directory name is nothing special)
         os.makedirs(incdir)
         lines = list(c['lines'])
         if c['incfile'] and len(lines) >= 2:
@@ -73,10 +76,14 @@ def judge(c, res):
         paths = {'out': os.path.join(work, o_rel), 'hex': os.path.join(work, o_rel + '.hex')}
         if c['l']:
             paths['lab'] = os.path.join(work, c['l'])
+        # reference: the API on the same input (what the bytes mean is C03-C11's business)
+        inc = [incdir] + ([os.path.join(os.path.dirname(os.path.abspath(a.__file__)), 'definitions')] if c['defs'] else [])
+        with env.cwd(work):
+            ref = progcheck.assemble(a, main_path, c['compress'], include_dirs=inc)
         if c['old']:
             for k, p in paths.items():
                 with open(p, 'wb') as f:
-                    f.write(SENTINEL[k])
+                    f.write(ref[1] if (c['old'] == 'same' and k == 'out' and ref[0] == 'ok') else SENTINEL[k])
         before = snapshot(root)
         argv = [main_arg]
         if c['compress']:
@@ -94,10 +101,6 @@ def judge(c, res):
             argv = ['-v'] + argv
         p = subprocess.run(CLI + argv, cwd=work, env=env.repo_python_env(), stdout=subprocess.PIPE, stderr=subprocess.PIPE, timeout=120)
         after = snapshot(root)
-        # reference: the API on the same input (what the bytes mean is C03-C11's business)
-        inc = [incdir] + ([os.path.join(os.path.dirname(os.path.abspath(a.__file__)), 'definitions')] if c['defs'] else [])
-        with env.cwd(work):
-            ref = progcheck.assemble(a, main_path, c['compress'], include_dirs=inc)
         files = {k: (open(pth, 'rb').read() if os.path.exists(pth) else None) for k, pth in paths.items()}
     payload = {'kind': 'cli', 'params': c}
     desc = 'argv=%r exit=%d stderr=%r' % (argv, p.returncode, p.stderr.decode('utf-8', 'replace')[-300:])
@@ -179,7 +182,7 @@ def run(tier):
     chk.rule = ('Hypothesis: generated programs (valid, or with one planted fault of the C15 classes so that failures come from every pass), '
                 'optionally with an include from a -i directory and --include-definitions, x option combinations (-c, -v, -o default/'
                 'file/subdir/a name that itself ends in .hex, program in the working directory / a subdirectory / elsewhere by absolute path, -l, --hex-offset legal 0..0xfff00000 or malformed), run as a SUBPROCESS of the real entry point in a scratch '
-                'directory that (in half the cases) already holds older -o, -l and .hex files. success: exit 0, -o bytes == assemble(), -l '
+                'directory that (in three cases out of four) already holds older -o, -l and .hex files (unrelated contents, or - a rebuild - the -o file already holding exactly this program); the -i directory name may contain a colon or a blank. success: exit 0, -o bytes == assemble(), -l '
                 'parses to exactly the label table, .hex parsed by an own Intel HEX reader == bytes at the offset; failure: exit != 0 and the '
                 'directory byte-identical to before. non-trivial = failing run with pre-existing files, or success with --hex-offset; '
                 'distinct by parameter tuple')
